@@ -123,6 +123,32 @@ pub fn run(ctx: &mut Ctx) {
             triple(ctx, "string:cat", &json!({"cat": [{"var": "str"}]}), &p, &dd, Some(nonempty));
         }
     }
+    // size probes: the deciding element at every position of a long collection / string
+    for n in al::size_classes(ctx.tier_thorough) {
+        if n > 300 {
+            continue;
+        }
+        if !ctx.mine() {
+            continue;
+        }
+        let step = if n > 40 { n / 13 + 1 } else { 1 };
+        let mut k = 0;
+        while k <= n {
+            // computed array: 1 everywhere, 0 at k (k == n: no deciding element)
+            let coll: Vec<Value> = (0..n).map(|i| if i == k { json!(0) } else { json!(1) }).collect();
+            let mut dd = d.clone();
+            dd["coll"] = Value::Array(coll.clone());
+            triple(ctx, "size-probe:var", &json!({"var": "coll"}), &json!({"log": {"var": ""}}), &dd, Some(true));
+            // literal array of expressions: tracers, then a poison after the deciding element
+            let lit: Vec<Value> = (0..n).map(|i| if i < k { json!({"log": [1]}) } else if i == k { json!({"log": [0]}) } else { json!({"+": ["x"]}) }).collect();
+            triple(ctx, "size-probe:literal", &Value::Array(lit), &json!({"var": ""}), &d, None);
+            // string: 'a' everywhere, a 4-byte character at k
+            let st: String = (0..n).map(|i| if i == k { '😀' } else { 'a' }).collect();
+            triple(ctx, "size-probe:string", &json!(st), &json!({"==": [{"var": ""}, "a"]}), &d, Some(true));
+            triple(ctx, "size-probe:string:var", &json!({"var": "str"}), &json!({"log": {"var": ""}}), &json!({"str": st}), Some(true));
+            k += step;
+        }
+    }
     // null, empty and non-collections
     if ctx.mine() {
         let colls = vec![
